@@ -459,27 +459,25 @@ var ruleParams = &core.Rule{ID: "R02.2", Min: 5,
 					vcall, isCall := x.Value.(*ssa.Call)
 					okVal := false
 					if isCall && vcall.Call.StaticCallee() == nil {
-						if ex, ok := vcall.Call.Value.(*ssa.Extract); ok && ex.Index == 0 {
-							if lk, ok := ex.Tuple.(*ssa.Lookup); ok && cm.isSnifferMap(lk.X) && lk.CommaOk {
-								base, fld, isLoad := core.LoadOfField(lk.Index)
-								if isLoad && fld == m.tm.FMime && base == ssa.Value(f.Params[0]) && len(vcall.Call.Args) == 1 && vcall.Call.Args[0] == ssa.Value(f.Params[1]) {
-									okVal = true
-									// guarded by ok
-									guarded, nonEmpty := false, false
-									for _, de := range core.DominatingConds(x.Block()) {
-										cond, val := core.StripNot(de.Cond, de.Val)
-										if e2, ok := cond.(*ssa.Extract); ok && e2.Tuple == ssa.Value(lk) && e2.Index == 1 && val {
-											guarded = true
-										}
-										if bo, ok := cond.(*ssa.BinOp); ok && bo.X == ssa.Value(vcall) {
-											if k, ok := core.ConstString(bo.Y); ok && k == "" && ((bo.Op == token.NEQ && val) || (bo.Op == token.EQL && !val)) {
-												nonEmpty = true
-											}
+						if lk := cm.lookupOf(vcall.Call.Value); lk != nil {
+							base, fld, isLoad := core.LoadOfField(lk.key)
+							if isLoad && fld == m.tm.FMime && base == ssa.Value(f.Params[0]) && len(vcall.Call.Args) == 1 && vcall.Call.Args[0] == ssa.Value(f.Params[1]) {
+								okVal = true
+								// guarded by the found test
+								guarded, nonEmpty := false, false
+								for _, de := range core.DominatingConds(x.Block()) {
+									cond, val := core.StripNot(de.Cond, de.Val)
+									if lk.found(de) {
+										guarded = true
+									}
+									if bo, ok := cond.(*ssa.BinOp); ok && bo.X == ssa.Value(vcall) {
+										if k, ok := core.ConstString(bo.Y); ok && k == "" && ((bo.Op == token.NEQ && val) || (bo.Op == token.EQL && !val)) {
+											nonEmpty = true
 										}
 									}
-									s.Check(guarded, "charset only for the three text types", c.Pos(x.Pos()), "under the ok edge of the sniffer-map lookup by the receiver's type", "charset is attached outside the ok edge of the sniffer lookup")
-									s.Check(nonEmpty, "charset only when non-empty", c.Pos(x.Pos()), "under sniffer result != \"\"", "an empty charset parameter may be attached")
 								}
+								s.Check(guarded, "charset only for the three text types", c.Pos(x.Pos()), "under the found edge of the sniffer lookup by the receiver's type", "charset is attached outside the ok edge of the sniffer lookup")
+								s.Check(nonEmpty, "charset only when non-empty", c.Pos(x.Pos()), "under sniffer result != \"\"", "an empty charset parameter may be attached")
 							}
 						}
 					}
